@@ -91,15 +91,32 @@ def require_propagated(ctx, out, name, rx, what, bodies):
     return found
 
 
+def _guard_matches(ctx, b, br, e, guard_rx):
+    """The guard's predicate matches guard_rx as written, or - when the tested value went through a
+    tuple / Option on several paths - is the same predicate applied to a value of the same origin
+    (`^str::is_empty\\(str::trim\\(` : is_empty of something that is directly a trim() result)."""
+    txt = render(e, 800)
+    if re.search(guard_rx, txt):
+        return True
+    m = re.match(r"^\^str::is_empty\\\(str::trim\\\($", guard_rx)
+    if m and e[0] == "call" and re.search(r"<impl str>::is_empty$|^str::is_empty$|str>::is_empty$", e[1]) and len(e) > 3 and isinstance(e[3], int):
+        ct = b.blocks[e[3]]["term"]
+        if ct and ct.get("args"):
+            labs = ctx.prov.read_operand(b, ct["args"][0])
+            direct = {l for l in labs if l[0] == "call" and not l[2]}
+            return bool(direct) and all(re.search(r"<impl str>::trim$", l[1]) for l in direct)
+    return False
+
+
 def explicit_err(ctx, out, name, body, guard_rx, polarity_true, what, key):
     """An `Err(..)` built under a guard whose rendered predicate matches guard_rx."""
-    for b in body:
+    for b in ctx.views(body):
         for bi, j, s in b.assigns():
             rv = s["rv"]
             if rv["k"] == "agg" and rv.get("variant") == "Err" and rv.get("path") == "std::result::Result":
                 for br, vals, e in util.guards(ctx, b, bi):
                     txt = render(e, 800)
-                    if re.search(guard_rx, txt):
+                    if _guard_matches(ctx, b, br, e, guard_rx):
                         if (polarity_true and 0 not in vals) or (not polarity_true and vals == {0}):
                             if key == "direction" or util.arm_only_err(ctx, b, br, vals):
                                 return 1
@@ -129,7 +146,7 @@ def run(ctx, out, tier):
     # line-count: no comparator at all -> Err (the else of the prefix chain)
     pcs = [b for b in ctx.validator_bodies("line-count") if b.id.endswith("parse_constraint")]
     ok = False
-    for b in pcs:
+    for b in ctx.views(pcs):
         for bi, j, s in b.assigns():
             rv = s["rv"]
             if rv["k"] == "agg" and rv.get("variant") == "Err":
@@ -137,6 +154,16 @@ def run(ctx, out, tier):
                 sp = [(vals, e) for br, vals, e in gs if e[0] == "discr" and find_calls(e, r"<impl str>::strip_prefix$")]
                 if len(sp) >= 5 and all(1 not in vals for vals, e in sp):
                     ok = True
+                # table idiom: the Err is built when the scan of the comparator table (the loop that
+                # holds the one strip_prefix test) is exhausted without a hit
+                cfg = cfg_of(b)
+                sps = [x for x, t2 in b.calls() if callee_matches(t2, r"<impl str>::strip_prefix$")]
+                for br, vals, e in gs:
+                    if e[0] == "discr" and e[1][0] == "call" and re.search(r"Iterator>?::next$", e[1][1]) and vals == {0} and len(sps) == 1:
+                        nb = e[1][3] if len(e[1]) > 3 else None
+                        h = cfg.innermost_loop(nb) if nb is not None else None
+                        if h is not None and sps[0] in cfg.loops()[h] and util.arm_only_err(ctx, b, br, vals) is not None:
+                            ok = True
     if ok:
         n += 1
     else:
